@@ -14,6 +14,10 @@ package main
 //	badconf     registrar config is not TOML                     (loadConfig fails)
 //	nocc        the ClientConf named by the config is missing    (loadConfig fails)
 //	badcc       the ClientConf is not a protobuf                 (loadConfig fails)
+//	rollout     like valid, and the ClientConf generation goes up by one while the subnet file contains
+//	            ONLY the new generation (the old one is retired). The requests of this harness come
+//	            from generation-1 clients: they are answered only because the registrar, once the new
+//	            ClientConf has been republished to it, moves outdated clients to the newest generation
 //	emptysubnets  the phantom subnet file parses but defines no usable generation (0 bytes / no
 //	            Networks table / empty table / truncated mid-table): the unchanged tree installs it and
 //	            answers 500 quickly until the next good reload; keeping the old set is accepted too.
@@ -65,7 +69,7 @@ const (
 	c13hLogWait    = 1 * time.Second  // bounded wait for the failure log line after a failing step (no verdict)
 )
 
-var c13hKinds = []string{"valid", "badsubnets", "nosubnets", "badconf", "nocc", "badcc", "emptysubnets"}
+var c13hKinds = []string{"valid", "badsubnets", "nosubnets", "badconf", "nocc", "badcc", "emptysubnets", "rollout"}
 
 // subnet files that are valid TOML but define no usable generation (what a reload sees while the
 // file is being rewritten). The unchanged tree installs them and refuses registrations until the next
@@ -125,7 +129,14 @@ type c13hSrv struct {
 
 	mayEmpty     atomic.Bool  // a file without usable generations was offered and no good reload was seen since
 	refusedEmpty atomic.Int64 // registrations refused (HTTP 500) while mayEmpty
-	emptyN       atomic.Int64
+	// A reload that retires generations is not atomic in the unchanged tree: the subnets are swapped
+	// first, the new ClientConf (which makes the registrar move outdated clients to the newest
+	// generation) is published right after. Between the two - and until a later reload if this one had
+	// read the ClientConf before it was replaced - outdated clients are refused. mayLag is set from
+	// the moment such a file is offered until an outdated client has been answered from it.
+	mayLag atomic.Bool
+	curGen atomic.Uint32 // generation of the ClientConf on disk (and the only one in the regular subnet file)
+	emptyN atomic.Int64
 
 	seq       atomic.Int64 // newest set written to the subnet file
 	confirmed atomic.Int64 // newest set the registrar was seen answering from after its step
@@ -150,6 +161,22 @@ func c13hWrite(path string, data []byte) error {
 }
 
 func c13hSubnets(seq int64) []byte { return c13hSubnetsG(seq, 1) }
+
+// c13hSubnetsR: version seq with decoy-list generations lo..hi only (older ones are retired).
+func c13hSubnetsR(seq int64, lo, hi uint32) []byte {
+	var sb strings.Builder
+	sb.WriteString("\n[Networks]\n")
+	for g := lo; g <= hi; g++ {
+		fmt.Fprintf(&sb, `    [Networks.%d]
+        Generation = %d
+        [[Networks.%d.WeightedSubnets]]
+            Weight = 1
+            RandomizeDstPort = true
+            Subnets = ["10.%d.%d.0/24", "2001:db8:%x::/64"]
+`, g, g, g, seq>>8, seq&255, 0x1000+seq)
+	}
+	return []byte(sb.String())
+}
 
 // c13hSubnetsG: version seq of the subnet file with decoy-list generations 1..gens, all of them on
 // the subnets of that version (so the set an answer comes from identifies the file version).
@@ -212,6 +239,7 @@ func c13hStartMain(t *testing.T) *c13hSrv {
 		confPath: filepath.Join(dir, "reg_config.toml"), keyPath: filepath.Join(dir, "privkey"), logs: &c13hLog{},
 		client: &http.Client{Timeout: c13hReqTimeout}, mainDone: make(chan struct{})}
 	s.fatal.Store("")
+	s.curGen.Store(1)
 	if s.apiPort, err = c13hFreePort(":0"); err != nil { // the API registrar binds all interfaces
 		t.Fatalf("harness problem: %v", err)
 	}
@@ -280,7 +308,7 @@ func (s *c13hSrv) register(kind string) (set int64, key, msg string) {
 // registerGen: the same for a client that is on decoy-list generation gen.
 func (s *c13hSrv) registerGen(kind string, gen uint32) (set int64, key, msg string) {
 	n := s.reqN.Add(1)
-	emptyBefore := s.mayEmpty.Load()
+	emptyBefore := s.mayEmpty.Load() || s.mayLag.Load()
 	tr := pb.TransportType_Min
 	secret := make([]byte, 32)
 	binary.BigEndian.PutUint64(secret, uint64(n))
@@ -305,7 +333,7 @@ func (s *c13hSrv) registerGen(kind string, gen uint32) (set int64, key, msg stri
 	if err != nil {
 		return -1, "transport", err.Error()
 	}
-	if resp.StatusCode == http.StatusInternalServerError && (emptyBefore || s.mayEmpty.Load()) {
+	if resp.StatusCode == http.StatusInternalServerError && (emptyBefore || s.mayEmpty.Load() || s.mayLag.Load()) {
 		// a subnet file that defines no usable generation may be in force: the registrar refuses
 		// registrations (quickly) until the next good reload - that is how they complete then
 		s.refusedEmpty.Add(1)
@@ -422,7 +450,17 @@ func (s *c13hSrv) step(kind string, prevFailed bool) (v *c13hViol, harness strin
 	var err error
 	switch kind {
 	case "valid":
-		err = c13hWrite(s.subnetPath, c13hSubnets(s.seq.Add(1)))
+		g := s.curGen.Load()
+		err = c13hWrite(s.subnetPath, c13hSubnetsR(s.seq.Add(1), g, g))
+	case "rollout":
+		// generation N+1 is rolled out and generation N is retired: new ClientConf, and a subnet
+		// file that contains only the new generation
+		g := s.curGen.Add(1)
+		s.cc, _ = proto.Marshal(&pb.ClientConf{Generation: proto.Uint32(g)})
+		s.mayLag.Store(true)
+		if err = c13hWrite(s.ccPath, s.cc); err == nil {
+			err = c13hWrite(s.subnetPath, c13hSubnetsR(s.seq.Add(1), g, g))
+		}
 	case "badsubnets":
 		err = c13hWrite(s.subnetPath, []byte("[Networks\n  this is = = not toml ]]\n"))
 	case "nosubnets":
@@ -452,9 +490,12 @@ func (s *c13hSrv) step(kind string, prevFailed bool) (v *c13hViol, harness strin
 	}
 	s.sighup()
 
-	if kind == "valid" {
+	if kind == "valid" || kind == "rollout" {
 		want := s.seq.Load()
 		classes = append(classes, "valid")
+		if kind == "rollout" {
+			classes = append(classes, "rollout")
+		}
 		if prevFailed {
 			classes = append(classes, "valid-after-failed")
 		} else {
@@ -470,14 +511,23 @@ func (s *c13hSrv) step(kind string, prevFailed bool) (v *c13hViol, harness strin
 			if set == want {
 				s.confirmed.Store(want)
 				s.mayEmpty.Store(false)
+				s.mayLag.Store(false)
 				return nil, "", classes
 			}
-			if set == c13hRefused {
-				set = old // still refused by the empty set: keep waiting for the new one
+			refusedNow := set == c13hRefused
+			if refusedNow {
+				set = old // still refused (empty set in force, or ClientConf not republished yet): keep waiting
 			}
 			if set != old && set != want {
 				// cannot happen with monotonic set numbers unless a stale file was loaded
 				return &c13hViol{"sighup:unexpected-set", fmt.Sprintf("after a valid reload step to set %d (from set %d) a registration is answered from set %d", want, old, set)}, "", classes
+			}
+			if time.Since(start) > c13hPatience && sent >= 4 && refusedNow && s.mayLag.Load() {
+				// clients of the newest generation tell whether the subnets were reloaded
+				if cs, ck, _ := s.registerGen("dual", s.curGen.Load()); ck == "" && cs == want {
+					return &c13hViol{"sighup:outdated-clients-refused", fmt.Sprintf("generation %d was rolled out and the older generations retired from the subnet file: the reload has completed (a generation-%d client is answered from the new set %d), but after %d SIGHUPs over %v clients on an older generation are still refused with HTTP 500 - the new ClientConf was never republished to the registrar, which therefore does not move them to the new generation. Registrar log tail: %q",
+						s.curGen.Load(), s.curGen.Load(), want, sent, time.Since(start).Round(time.Second), s.logs.tail(300))}, "", classes
+				}
 			}
 			if time.Since(start) > c13hPatience && sent >= 4 {
 				return &c13hViol{"sighup:reload-never-completed", fmt.Sprintf("all files are valid and the phantom subnet file holds set %d, but after %d SIGHUPs over %v (process otherwise idle) registrations are still answered from set %d: the reload never completes. Registrar log tail: %q",
@@ -567,7 +617,7 @@ func TestVerif_C13_sighup(t *testing.T) {
 		}
 		hist = c.Steps
 	} else {
-		rec.Require("valid-after-failed", "valid-after-valid", "failed:badsubnets", "failed:nosubnets", "failed:badconf", "failed:nocc", "failed:badcc", "empty-file-offered", "refused-by-empty-set", "concurrent-requests")
+		rec.Require("valid-after-failed", "valid-after-valid", "failed:badsubnets", "failed:nosubnets", "failed:badconf", "failed:nocc", "failed:badcc", "empty-file-offered", "refused-by-empty-set", "rollout", "concurrent-requests")
 		shard, _ := vh.Shard()
 		for _, x := range c13hDeBruijn(len(c13hKinds), vh.Pick(3, 4)) {
 			hist = append(hist, c13hKinds[x])
@@ -577,7 +627,7 @@ func TestVerif_C13_sighup(t *testing.T) {
 				hist[i], hist[j] = hist[j], hist[i]
 			}
 		}
-		tail := rapid.SliceOfN(rapid.SampledFrom([]string{"valid", "valid", "valid", "badsubnets", "nosubnets", "badconf", "nocc", "badcc", "emptysubnets"}), vh.Pick(100, 1000), vh.Pick(100, 1000)).
+		tail := rapid.SliceOfN(rapid.SampledFrom([]string{"valid", "valid", "valid", "badsubnets", "nosubnets", "badconf", "nocc", "badcc", "emptysubnets", "rollout"}), vh.Pick(100, 1000), vh.Pick(100, 1000)).
 			Example(int(vh.Seed())*1000 + shard)
 		hist = append(hist, tail...)
 	}
